@@ -8,6 +8,7 @@ Mirrors, as the code is after the three proposed repairs (`proposed_fixes/C13-*.
 * `Pixel.empty` (all-zero float64 array) and `Pixel.update(None)` (really empty)   (pixel.py)
 * the bucket setters of `Detector` (`detector.pixel = other` …, `detector.photon = other`)   (detectors/detector.py)
 * `Detector.empty(reset)` and `MKID.empty(reset)` as seen from each bucket (`emptyAll`)     (detectors/detector.py, mkid.py)
+* `pyxel.models.load_detector(detector, file)` as seen from each bucket (`load`)            (models/util.py)
 * `Photon.array` / `array_3d` getters and setters (check order, clipping of negatives, copy),
   `Photon.__iadd__` / `__add__`, `shape`, `dtype`, `empty`, `__eq__`      (photon.py)
 
@@ -132,6 +133,8 @@ inductive Op
   | update (v : Option Operand)   -- `c.update(v)`
   | iadd (v : Operand)            -- `c += v`  and  `c + v` (same body in the code)
   | adopt (v : Option Operand)    -- `detector.<bucket> = other` where the container `other` holds `v` (or is empty)
+  | load (v : Option Operand) (sameType sameGeo : Bool)
+                                  -- `load_detector(detector, file)`: the file's detector holds `v` in this bucket
   | empty                         -- `c.empty()`
   | emptyAll (reset : Bool)       -- `detector.empty(reset)` seen from this bucket (Detector.empty, MKID.empty)
   | read | read3 | readDtype | readShape
@@ -317,6 +320,23 @@ def step (c : Cfg) (s : State) : Op → State × Outcome
         else match validateBase c v with
           | .ok a => (some a, .ok .unit)
           | .error e => (s, .error e)
+  | .load v sameType sameGeo =>
+    -- models/util.py `load_detector`: type and geometry of the file's detector are compared
+    -- BEFORE any bucket is replaced; then the buckets of the detector rebuilt by `from_dict`
+    -- (through the validating setters / `update` of fresh buckets of the same geometry) are installed
+    if !sameType then (s, .error .typeError)
+    else if !sameGeo then (s, .error .valueError)
+    else
+      match c.kind, v with
+      | _, none => (none, .ok .unit)
+      | .photon, some v =>
+        match (if isXr v then validatePhoton3 c v else validatePhoton2 c v) with
+        | .ok a => (some a, .ok .unit)
+        | .error e => (s, .error e)
+      | _, some v =>
+        match validateBase c (asArray v) with
+        | .ok a => (some a, .ok .unit)
+        | .error e => (s, .error e)
   | .empty =>
     match c.kind with
     | .pixel => (some ⟨false, [c.rows, c.cols], .float64, .zeros⟩, .ok .unit)
@@ -390,7 +410,7 @@ def invB {γ : Type} (k : Kind) (rows cols : Nat) : Option (Arr γ) → Bool
        (k == .photon && a.is3d && a.shape.length == 3 && a.shape.drop 1 == [rows, cols]))
 
 def isAssign : Op → Bool
-  | .set _ | .set3 _ | .update _ | .adopt _ => true
+  | .set _ | .set3 _ | .update _ | .adopt _ | .load _ _ _ => true
   | _ => false
 
 /-! ## equality of two containers (`__eq__`), values abstracted to a token type `γ` -/
